@@ -444,4 +444,296 @@ theorem verifyResponse_ok (env : Env) (sub : Query → Res) (d : Nat) (q : Query
   · rename_i m hm
     exact ⟨_, by rw [hm], h⟩
 
+/-! ### where an Insecure verdict comes from -/
+
+/-- unsupported DS record whose own proof is Secure or Insecure (the records `fetch_ds_records` sets aside) -/
+def DsSetAside (d : Rec) : Prop :=
+  (d.algSupp = false ∨ d.digSupp = false) ∧ (d.proof = .secure ∨ d.proof = .insecure)
+
+theorem dsScan_cond (r : Rec) :
+    ((!r.algSupp || !r.digSupp) && (r.proof == .secure || r.proof == .insecure)) = true ↔ DsSetAside r := by
+  unfold DsSetAside
+  cases r.algSupp <;> cases r.digSupp <;> cases r.proof <;> simp
+
+theorem dsScan_spec (l : List Rec) (sup0 : List Rec) (au0 : Option Bool) :
+    (∀ d ∈ l, d ∈ (dsScan l (sup0, au0)).1 ∨ DsSetAside d) ∧
+    (∀ d ∈ (dsScan l (sup0, au0)).1, d ∈ sup0 ∨ (d ∈ l ∧ ¬ DsSetAside d)) ∧
+    ((dsScan l (sup0, au0)).2 = some true → ∀ d ∈ l, DsSetAside d) := by
+  induction l generalizing sup0 au0 with
+  | nil => simp [dsScan]
+  | cons r rest ih =>
+    unfold dsScan
+    split
+    · rename_i hc
+      have hr := (dsScan_cond r).mp hc
+      obtain ⟨h1, h2, h3⟩ := ih sup0 (match au0 with | none => some true | some b => some b)
+      refine ⟨?_, ?_, ?_⟩
+      · intro d hd
+        rcases List.mem_cons.mp hd with h | h
+        · exact Or.inr (h ▸ hr)
+        · exact h1 d h
+      · intro d hd
+        rcases h2 d hd with h | ⟨h, h'⟩
+        · exact Or.inl h
+        · exact Or.inr ⟨List.mem_cons_of_mem _ h, h'⟩
+      · intro hau d hd
+        rcases List.mem_cons.mp hd with h | h
+        · exact h ▸ hr
+        · exact h3 hau d h
+    · rename_i hc
+      have hr : ¬ DsSetAside r := fun h => hc ((dsScan_cond r).mpr h)
+      obtain ⟨h1, h2, h3⟩ := ih (sup0 ++ [r]) (some false)
+      have hmono : ∀ (l' : List Rec) (s : List Rec) (a : Option Bool), ∀ x ∈ s, x ∈ (dsScan l' (s, a)).1 := by
+        intro l'
+        induction l' with
+        | nil => intro s a x hx; simpa [dsScan] using hx
+        | cons y ys ihy =>
+          intro s a x hx
+          unfold dsScan
+          split
+          · exact ihy _ _ x hx
+          · exact ihy _ _ x (by simp [hx])
+      have hfalse : ∀ (l' : List Rec) (s : List Rec), (dsScan l' (s, some false)).2 = some false := by
+        intro l'
+        induction l' with
+        | nil => intro s; simp [dsScan]
+        | cons y ys ihy =>
+          intro s
+          unfold dsScan
+          split
+          · exact ihy _
+          · exact ihy _
+      refine ⟨?_, ?_, ?_⟩
+      · intro d hd
+        rcases List.mem_cons.mp hd with h | h
+        · exact Or.inl (h ▸ hmono rest (sup0 ++ [r]) (some false) r (by simp))
+        · exact h1 d h
+      · intro d hd
+        rcases h2 d hd with h | ⟨h, h'⟩
+        · simp only [List.mem_append, List.mem_singleton] at h
+          rcases h with h | h
+          · exact Or.inl h
+          · exact Or.inr ⟨h ▸ List.mem_cons_self, h ▸ hr⟩
+        · exact Or.inr ⟨List.mem_cons_of_mem _ h, h'⟩
+      · intro hau
+        rw [hfalse] at hau
+        simp at hau
+
+/-- the validated DS response holds no Secure DS record with a supported algorithm and digest type -/
+def NoSecureSupportedDs (md : Msg) : Prop :=
+  ∀ d ∈ md.an, d.rtype = tDS → d.proof = .secure → (d.algSupp = false ∨ d.digSupp = false)
+
+theorem fetchDs_insecure (sub : Query → Res) (zone : DName) (h : fetchDs sub zone = .err .insecure) :
+    ∃ md, sub ⟨zone, tDS⟩ = .ok md ∧ NoSecureSupportedDs md := by
+  unfold fetchDs at h
+  split at h
+  · simp at h
+  · rename_i m hm
+    refine ⟨m, hm, ?_⟩
+    simp only at h
+    split at h
+    · split at h
+      · rename_i hau
+        have hau' : (dsScan (m.an.filter (·.rtype == tDS)) ([], none)).2 = some true := by
+          cases hx : (dsScan (m.an.filter (·.rtype == tDS)) ([], none)).2 with
+          | none => simp [hx] at hau
+          | some b => cases b <;> simp_all
+        intro d hd ht _
+        have := (dsScan_spec _ [] none).2.2 hau' d (by simp [hd, ht])
+        exact this.1
+      · split at h <;> simp at h
+    · split at h
+      · rename_i hno
+        intro d hd ht _
+        exfalso
+        have : (m.an.any fun x => x.rtype == tDS) = true := by
+          simp only [List.any_eq_true, beq_iff_eq]
+          exact ⟨d, hd, ht⟩
+        simp [this] at hno
+      · simp at h
+  · simp at h
+
+theorem fetchDs_ok_spec (sub : Query → Res) (zone : DName) (ds : List Rec) (h : fetchDs sub zone = .ok ds) :
+    ∃ md, sub ⟨zone, tDS⟩ = .ok md ∧
+      (∀ d ∈ md.an, d.rtype = tDS → d ∈ ds ∨ DsSetAside d) ∧ (∀ d ∈ ds, ¬ DsSetAside d) := by
+  unfold fetchDs at h
+  split at h
+  · simp at h
+  · rename_i m hm
+    refine ⟨m, hm, ?_⟩
+    simp only at h
+    split at h
+    · split at h
+      · simp at h
+      · split at h
+        · injection h with h
+          obtain ⟨h1, h2, _⟩ := dsScan_spec (m.an.filter (·.rtype == tDS)) [] none
+          rw [h] at h1 h2
+          refine ⟨fun d hd ht => h1 d (by simp [hd, ht]), fun d hd => ?_⟩
+          rcases h2 d hd with h' | h'
+          · simp at h'
+          · exact h'.2
+        · simp at h
+    · split at h <;> simp at h
+  · simp at h
+
+theorem sigByKeys_ne_insecure (env : Env) (gid : GroupId) (keyed : List (Rec × Proof)) (sig : Rec) :
+    sigByKeys env gid keyed sig ≠ some .insecure := by
+  intro h
+  unfold sigByKeys at h
+  obtain ⟨kp, _, hf⟩ := List.exists_of_findSome?_eq_some h
+  split at hf <;> simp at hf
+
+theorem getLast?_of_all {l : List Proof} {p : Proof} (hall : l.all (· == .secure) = true) (h : l.getLast? = some p) :
+    p = .secure := by
+  have hm : p ∈ l := List.mem_of_getLast? h
+  simp only [List.all_eq_true, beq_iff_eq] at hall
+  exact hall p hm
+
+/-- a DNSKEY RRset is Insecure only if the validated DS response for its owner has no Secure supported DS -/
+theorem verifyDnskeyRrset_insecure (env : Env) (sub : Query → Res) (gid : GroupId) (recs sigs : List Rec)
+    (idx : Option Nat) (h : verifyDnskeyRrset env sub gid recs sigs = .done .insecure idx) :
+    ∃ md, sub ⟨gid.name, tDS⟩ = .ok md ∧ NoSecureSupportedDs md := by
+  unfold verifyDnskeyRrset at h
+  dsimp only at h
+  split at h
+  · simp at h
+  · rename_i p hf
+    injection h with h1 _
+    subst h1
+    split at hf
+    · exact fetchDs_insecure _ _ hf
+    · simp at hf
+  · rename_i ds hf
+    split at h
+    · rename_i hcheck
+      simp only [Bool.and_eq_true, Bool.not_eq_true', List.isEmpty_eq_false_iff, ne_eq] at hcheck
+      obtain ⟨hne, hall⟩ := hcheck
+      split at hf
+      · obtain ⟨md, hmd, h1, h2⟩ := fetchDs_ok_spec _ _ _ hf
+        refine ⟨md, hmd, ?_⟩
+        intro d hd ht hp
+        rcases h1 d hd ht with hin | hset
+        · exfalso
+          simp only [List.all_eq_true, List.mem_filter, Bool.or_eq_true, beq_iff_eq, Bool.not_eq_true',
+            and_imp] at hall
+          have hu := hall d hin (Or.inl hp)
+          exact h2 d hin ⟨by cases ha : d.algSupp <;> cases hb : d.digSupp <;> simp_all, Or.inl hp⟩
+        · exact hset.1
+      · injection hf with hf; exact absurd hf.symm hne
+    · split at h
+      · rename_i p i hfs
+        injection h with h1 _
+        subst h1
+        obtain ⟨sig, _, _, hs⟩ := firstSig_some _ _ _ _ _ _ _ hfs
+        exact absurd hs (sigByKeys_ne_insecure _ _ _ _)
+      · split at h
+        · rename_i hall
+          split at h
+          · rename_i p hlast
+            injection h with h1 _
+            subst h1
+            have := getLast?_of_all hall hlast
+            simp at this
+          · simp at h
+        · simp at h
+
+theorem scanKeys_insecure (env : Env) (gid : GroupId) (sig : Rec) (keys : List Rec) (ai : Option Bool)
+    (h : scanKeys env gid sig keys ai = some .insecure) (hai : ai ≠ some true) :
+    ∃ k ∈ keys, k.proof = .insecure := by
+  induction keys generalizing ai with
+  | nil =>
+    unfold scanKeys at h
+    split at h
+    · rename_i hg
+      cases ai with
+      | none => simp at hg
+      | some b => cases b <;> simp_all
+    · simp at h
+  | cons k rest ih =>
+    unfold scanKeys at h
+    split at h
+    · split at h
+      · simp at h
+      · simp at h
+      · obtain ⟨k', hk', hp⟩ := ih _ h (by simp)
+        exact ⟨k', List.mem_cons_of_mem _ hk', hp⟩
+    · rename_i hp
+      exact ⟨k, List.mem_cons_self, hp⟩
+    · obtain ⟨k', hk', hp⟩ := ih _ h (by simp)
+      exact ⟨k', List.mem_cons_of_mem _ hk', hp⟩
+
+theorem selectOk_insecure (env : Env) (sub : Query → Res) (gid : GroupId) (cands : List (Rec × Nat))
+    (idx : Option Nat) (h : selectOk env sub gid cands = .done .insecure idx) :
+    ∃ (s : Rec) (m : Msg) (k : Rec), sub ⟨s.signer, tDNSKEY⟩ = .ok m ∧ k ∈ m.an ∧ k.proof = .insecure := by
+  induction cands with
+  | nil => simp [selectOk] at h
+  | cons c rest ih =>
+    obtain ⟨s, i⟩ := c
+    unfold selectOk at h
+    split at h
+    · simp at h
+    · rename_i m hm
+      split at h
+      · rename_i p hp
+        injection h with h1 _
+        subst h1
+        unfold verifyRrsigWithKeys at hp
+        split at hp
+        · simp at hp
+        · obtain ⟨k, hk, hkp⟩ := scanKeys_insecure _ _ _ _ _ hp (by simp)
+          have := capKeys_subset _ _ k hk
+          simp only [List.mem_filter] at this
+          exact ⟨s, m, k, hm, this.1, hkp⟩
+      · simp at h
+    · exact ih h
+
+/-- an RRset other than DNSKEY is Insecure only if the DS lookup of an enclosing zone cut came back without a
+Secure supported DS (no RRSIGs), or the DNSKEY RRset of an RRSIG's signer is itself Insecure (inherited) -/
+theorem verifyDefaultRrset_insecure (env : Env) (sub : Query → Res) (q : Query) (gid : GroupId)
+    (sigs : List Rec) (idx : Option Nat)
+    (h : verifyDefaultRrset env sub q gid sigs = .done .insecure idx) :
+    (∃ zone md, sub ⟨zone, tDS⟩ = .ok md ∧ NoSecureSupportedDs md) ∨
+    (∃ (s : Rec) (m : Msg) (k : Rec), sub ⟨s.signer, tDNSKEY⟩ = .ok m ∧ k ∈ m.an ∧ k.proof = .insecure) := by
+  unfold verifyDefaultRrset at h
+  split at h
+  · split at h
+    · dsimp only at h
+      split at h
+      · simp at h
+      · rename_i p hf
+        injection h with h1 _
+        subst h1
+        left
+        unfold findDs at hf
+        split at hf
+        · simp at hf
+        · simp at hf
+        · rename_i zone _
+          split at hf
+          · simp at hf
+          · rename_i p' hfd
+            injection hf with hf
+            subst hf
+            obtain ⟨md, hmd, hno⟩ := fetchDs_insecure _ _ hfd
+            exact ⟨zone, md, hmd, hno⟩
+          · simp at hf
+      · simp at h
+    · simp at h
+  · exact Or.inr (selectOk_insecure _ _ _ _ _ h)
+
+/-- generalisation of `relabelOne_secure`: a record whose proof changes got the new proof from its RRset's verdict -/
+theorem relabelOne_proof (sec : List Rec) (vs : List (GKey × GV)) (i : Nat) (r : Rec) (p : Proof)
+    (h0 : r.proof ≠ p) (h : (relabelOne sec vs i r).proof = p) :
+    ∃ idx, vs.lookup r.gkey = some (.done p idx) := by
+  unfold relabelOne at h
+  split at h
+  · rename_i p' idx hl
+    split at h
+    · split at h
+      · simp only at h; subst h; exact ⟨idx, hl⟩
+      · exact absurd h h0
+    · simp only at h; subst h; exact ⟨idx, hl⟩
+  · exact absurd h h0
+
 end HickoryVerif.Chain
